@@ -221,13 +221,23 @@ func (s *AttrSpec) decode(content *hcl.BodyContent, blockLabels []blockLabel, ct
 
 	convVal, err := convert.Convert(val, s.Type)
 	if err != nil {
+		detail := fmt.Sprintf(
+			"Inappropriate value for attribute %q: %s.",
+			s.Name, err.Error(),
+		)
+		if val.ContainsMarked() {
+			// The conversion error can quote map keys and attribute names of
+			// the value, which may derive from marked (for example
+			// sensitive) values, so we describe only the requirement.
+			detail = fmt.Sprintf(
+				"Inappropriate value for attribute %q: %s required.",
+				s.Name, s.Type.FriendlyNameForConstraint(),
+			)
+		}
 		diags = append(diags, &hcl.Diagnostic{
-			Severity: hcl.DiagError,
-			Summary:  "Incorrect attribute value type",
-			Detail: fmt.Sprintf(
-				"Inappropriate value for attribute %q: %s.",
-				s.Name, err.Error(),
-			),
+			Severity:    hcl.DiagError,
+			Summary:     "Incorrect attribute value type",
+			Detail:      detail,
 			Subject:     attr.Expr.Range().Ptr(),
 			Context:     hcl.RangeBetween(attr.NameRange, attr.Expr.Range()).Ptr(),
 			Expression:  attr.Expr,
